@@ -680,10 +680,12 @@ def write_evidence(prop_id, level_text, tier, seed, results, wall, violations):
         "wall_s": round(wall, 2),
         "violations": violations,
     }
-    os.makedirs(os.path.join(VERIF, "evidence"), exist_ok=True)
-    tmp = os.path.join(VERIF, "evidence", prop_id + ".json.tmp")
+    # evidence of runs against a mutated copy of the repository (OVNI_REPO) is not evidence about /repo
+    evdir = os.path.join(VERIF, "evidence") if os.path.realpath(REPO) == "/repo" else "/var/tmp/ovni-verif-mutant-evidence"
+    os.makedirs(evdir, exist_ok=True)
+    tmp = os.path.join(evdir, prop_id + ".json.tmp")
     json.dump(ev, open(tmp, "w"), indent=1)
-    os.replace(tmp, os.path.join(VERIF, "evidence", prop_id + ".json"))
+    os.replace(tmp, os.path.join(evdir, prop_id + ".json"))
 
 
 def replay_file(sc, path):
